@@ -91,6 +91,7 @@ fn concurrent(ch: &mut Choices, case: &mut Case) -> Result<(), String> {
     let mut ohs: Vec<AnyOh> = Vec::new();
     let mut texts = Vec::new();
     let mut pools = Vec::new();
+    let mut sun_slots: Vec<usize> = Vec::new();
     for _ in 0..n_oh {
         let cfg = Cfg { max_rules: 3, base_year: 2020, dense: ch.chance(40), ..Cfg::default() };
         let g = gen_case(ch, &cfg)?;
@@ -101,12 +102,20 @@ fn concurrent(ch: &mut Choices, case: &mut Case) -> Result<(), String> {
                 ohs.push(AnyOh::Plain(g.oh));
             }
             1 => {
-                // context inferred from coordinates: embedded holidays, country boundaries, zone finder
+                // context inferred from coordinates: embedded holidays, country boundaries, zone
+                // finder; most of these expressions use sun events, which depend on the place
                 let (lat, lon) = ch.pick(&CITIES);
                 let ctx = Context::from_coords(Coordinates::new(lat, lon).unwrap());
                 let tz = *ctx.locale.get_timezone();
-                texts.push(format!("{} [from_coords({lat}, {lon})]", g.text));
-                ohs.push(AnyOh::Tz(g.oh.with_context(ctx), tz));
+                let (oh, text) = if ch.chance(70) {
+                    let t = ch.pick(&["sunrise-sunset", "dawn-dusk; Su off", "(sunrise+01:00)-(sunset-01:00) unknown", "sunset-sunrise", "Mo-Fr dawn-12:00,14:00-dusk; PH off"]);
+                    sun_slots.push(ohs.len());
+                    (OpeningHours::parse(t).unwrap(), t.to_string())
+                } else {
+                    (g.oh, g.text.clone())
+                };
+                texts.push(format!("{text} [from_coords({lat}, {lon})]"));
+                ohs.push(AnyOh::Tz(oh.with_context(ctx), tz));
                 case.label("from_coords_context");
             }
             _ => {
@@ -122,15 +131,36 @@ fn concurrent(ch: &mut Choices, case: &mut Case) -> Result<(), String> {
         .map(|_| {
             let oh = ch.draw(n_oh as u32) as usize;
             let op = ch.pick(&[Op::State, Op::NextChange, Op::Schedule, Op::Intervals, Op::State, Op::NextChange, Op::Print, Op::Normalize]);
-            let t = pools[oh].draw(ch, true).and_hms_opt(ch.draw(24), ch.draw(60), 0).unwrap();
+            // sun-event expressions are probed on a handful of shared days, so that different
+            // places are evaluated on the same day by the same thread
+            let date = if sun_slots.contains(&oh) {
+                NaiveDate::from_ymd_opt(2024, 6, 20).unwrap() + Duration::days(ch.int(0, 2))
+            } else {
+                pools[oh].draw(ch, true)
+            };
+            let t = date.and_hms_opt(ch.draw(24), ch.draw(60), 0).unwrap();
             Query { oh, op, t }
         })
         .collect();
     case.key = format!("{} expressions [{}], {} queries", n_oh, texts.join(" | "), n_q);
+    if sun_slots.len() >= 2 {
+        case.label("several_places_with_sun_events");
+    }
     // sequential reference, repeated calls, clones
-    let reference: Vec<String> = queries.iter().map(|q| answer(&ohs, q)).collect();
+    // reference: every query answered by a *fresh thread* (no thread-local history), then the
+    // same queries in order on this thread, which has a history
+    let reference: Vec<String> = queries
+        .iter()
+        .map(|q| std::thread::scope(|s| s.spawn(|| answer(&ohs, q)).join().expect("reference thread")))
+        .collect();
     if let Some(i) = reference.iter().position(|r| r.starts_with("PANIC")) {
         return Err(format!("query {:?} on `{}`: {}", queries[i], texts[queries[i].oh], reference[i]));
+    }
+    for (i, q) in queries.iter().enumerate() {
+        let here = answer(&ohs, q);
+        if here != reference[i] {
+            return Err(format!("query {q:?} on `{}` answered {here:?} after other evaluations on the same thread, but {:?} on a fresh thread", texts[q.oh], reference[i]));
+        }
     }
     for (i, q) in queries.iter().enumerate().rev() {
         let again = answer(&ohs, q);
@@ -242,6 +272,19 @@ pub fn first_use_op(op: usize) -> String {
             .iter()
             .map(|(lat, lon)| format!("{};", TzLocation::from_coords(Coordinates::new(*lat, *lon).unwrap()).get_timezone()))
             .collect(),
+        // sun events at two other places on the days used by operation 4
+        5 => {
+            let mut s = String::new();
+            for (lat, lon) in [(35.6762, 139.6503), (64.1466, -21.9426)] {
+                let oh = OpeningHours::parse("sunrise-sunset; dusk-dawn unknown")
+                    .unwrap()
+                    .with_context(Context::default().with_locale(TzLocation::new(chrono_tz::UTC).with_coords(Coordinates::new(lat, lon).unwrap())));
+                for day in 28..31 {
+                    s.push_str(&format!("{:?};", oh.schedule_at(NaiveDate::from_ymd_opt(2024, 3, day).unwrap()).into_iter().map(|r| (r.range, r.kind)).collect::<Vec<_>>()));
+                }
+            }
+            s
+        }
         // parser (Easter warning `Once`) and an evaluation through everything
         _ => {
             let oh = OpeningHours::parse("easter -2 days-easter +1 day 10:00-18:00; PH off; sunrise-sunset unknown").unwrap();
@@ -249,12 +292,12 @@ pub fn first_use_op(op: usize) -> String {
             let tz = *ctx.locale.get_timezone();
             let oh = oh.with_context(ctx);
             let t = tz.with_ymd_and_hms(2024, 3, 29, 8, 0, 0).unwrap();
-            format!("{:?};{:?};{}", oh.state(t), oh.next_change(t), oh.iter_range(t, t + Duration::days(10)).count())
+            format!("{:?};{:?};{:?}", oh.state(t), oh.next_change(t), oh.iter_range(t, t + Duration::days(3)).map(|i| (i.range, i.kind)).collect::<Vec<_>>())
         }
     }
 }
 
-pub const N_OPS: usize = 5;
+pub const N_OPS: usize = 6;
 
 /// Child process: `threads` threads race through the first uses in the order given by `order`
 /// (thread k starts at position k of the order); prints one line per (thread, op).
@@ -395,7 +438,7 @@ fn first_use(tier: Tier, seed: u64) -> SubOutcome {
     failures.truncate(3);
     SubOutcome {
         name: "first_use",
-        rule: "fresh child processes (the harness re-executes itself): 2 or 8 threads released by a barrier walk a given order of first uses of the five lazily initialised tables (public / school holiday databases, country boundaries, zone finder + zone-by-name map, parser incl. the Easter warning Once), thread k starting at position k; every digest must equal the one of a sequential run; thorough: all 120 orders x {2, 8} threads, quick: 24 orders drawn from the seed; non-trivial = at least two threads spent > 2 ms in the same table's first use (timing is used for this label only, never for the verdict)",
+        rule: "fresh child processes (the harness re-executes itself): 2 or 8 threads released by a barrier walk a given order of first uses of the lazily initialised tables (public / school holiday databases, country boundaries, zone finder + zone-by-name map, parser incl. the Easter warning Once) and of sun-event evaluation at different places on the same days, thread k starting at position k; every digest must equal the one of a sequential run; thorough: all 720 orders x {2, 8} threads, quick: 24 orders drawn from the seed; non-trivial = at least two threads spent > 2 ms in the same table's first use (timing is used for this label only, never for the verdict)",
         stats,
         failures,
         wall_s: start.elapsed().as_secs_f64(),
@@ -446,7 +489,7 @@ pub fn property() -> Property {
         ],
         extra: Some(extra),
         assumptions: vec![
-            "interleavings are sampled (barriers, many fresh processes): the harness does not own the OS scheduler, so a race needing one specific preemption point can be missed; first-use ORDERS are enumerated (all 120 in the thorough tier)",
+            "interleavings are sampled (barriers, many fresh processes): the harness does not own the OS scheduler, so a race needing one specific preemption point can be missed; first-use ORDERS are enumerated (all 720 in the thorough tier)",
             "queries needing more than 20 000 day schedules answer TOO_FAR deterministically on every thread",
         ],
     }
